@@ -10,6 +10,7 @@ From VQ Require Import Proofs.EinopsProofs Proofs.EinopsRepeat.
 From VQ Require Import Model.NonFinite Proofs.NonFiniteProofs Glue.NonFiniteGlue.
 From VQ Require Import Glue.Pin_o_vq_mask_proj Glue.Pin_o_rvq_mask_proj.
 From VQ Require Import Model.Strides Proofs.StridesProofs Glue.Pin_inv_view_writes.
+From VQ Require Import Proofs.StridesGeneral.
 Import ListNotations.
 Open Scope R_scope.
 
@@ -297,3 +298,36 @@ Theorem C09_tie_no_new_write_through_view_handles :
   inv_view_writes.inv_view_writes = pinned_inv_view_writes.
 Proof. exact (@Pin_inv_view_writes.pin_inv_view_writes). Qed.
 Print Assumptions C09_tie_no_new_write_through_view_handles.
+
+Theorem C09_mergeable_write_lands :
+  forall (A : Type) (zero : A) (t : t3) (m : storage A) (rows : nat -> bool) (i j k : nat),
+       sb t = (nn t * sn t)%nat ->
+       injective_addressing t ->
+       (i < nb t)%nat ->
+       (j < nn t)%nat ->
+       (k < nd t)%nat ->
+       get A (write_through_reshape A zero m t rows) t i j k = where_rows A zero m t rows i j k.
+Proof. exact (@StridesGeneral.mergeable_write_lands). Qed.
+Print Assumptions C09_mergeable_write_lands.
+
+Theorem C09_feature_permuted_write_lands :
+  forall (A : Type) (zero : A) (b n d : nat) (m : storage A) (rows : nat -> bool) (i j k : nat),
+       (i < b)%nat ->
+       (j < n)%nat ->
+       (k < d)%nat ->
+       get A (write_through_reshape A zero m (feature_permuted b n d) rows) (feature_permuted b n d) i j k =
+       where_rows A zero m (feature_permuted b n d) rows i j k.
+Proof. exact (@StridesGeneral.feature_permuted_write_lands). Qed.
+Print Assumptions C09_feature_permuted_write_lands.
+
+Theorem C09_expanded_write_aliases :
+  forall (A : Type) (zero one : A),
+       one <> zero ->
+       exists (t : t3) (m : storage A) (rows : nat -> bool) (i j k : nat),
+         sb t = (nn t * sn t)%nat /\
+         (i < nb t)%nat /\
+         (j < nn t)%nat /\
+         (k < nd t)%nat /\
+         get A (write_through_reshape A zero m t rows) t i j k <> where_rows A zero m t rows i j k.
+Proof. exact (@StridesGeneral.expanded_write_aliases). Qed.
+Print Assumptions C09_expanded_write_aliases.
